@@ -146,7 +146,7 @@ func cmdCheck(args []string) int {
 		rs := append([]JobResult(nil), c.Results...)
 		sort.Slice(rs, func(i, j int) bool { return rs[i].Wall > rs[j].Wall })
 		for i := 0; i < 15 && i < len(rs); i++ {
-			fmt.Fprintf(os.Stderr, "slow: %-40s %6.1fs paths=%d queries=%d\n", rs[i].Job.Label, rs[i].Wall.Seconds(), rs[i].Paths, rs[i].Queries)
+			fmt.Fprintf(os.Stderr, "slow: %-40s %6.1fs paths=%d queries=%d solver=%.2fs\n", rs[i].Job.Label, rs[i].Wall.Seconds(), rs[i].Paths, rs[i].Queries, rs[i].SolverTime.Seconds())
 		}
 	}
 	c.evaluate()
